@@ -16,6 +16,7 @@ import (
 	"go/constant"
 	"go/token"
 	"go/types"
+	"os"
 	"sort"
 	"strings"
 
@@ -127,6 +128,7 @@ type analyzer struct {
 	changedEntry bool
 	mono         map[*types.Func]bool
 	leq          map[*types.Func]bool
+	weak         map[*types.Func]bool // idx < len at entry ⇒ idx <= len at every successful exit
 	exitNeed     int
 	nonEOFPred   map[*types.Func]bool
 	monoFail     bool
@@ -134,7 +136,12 @@ type analyzer struct {
 	decrOK       map[string]bool
 	decrBad      map[string]string
 	siteInfo     map[string]tsite
+	// cursorParam: int parameters that every call site fills with <parser>.tokenIndex + c
+	// (offset c); -1<<20 marks a parameter that some call site fills with something else
+	cursorParam map[*types.Func]map[int]int
 }
+
+const notCursor = -1 << 20
 
 func (an *analyzer) isTokSlice(e ast.Expr) bool {
 	t := an.info.TypeOf(e)
@@ -505,6 +512,35 @@ func (an *analyzer) effects(st *tstate, n ast.Node) {
 				if _, ok := an.funcs[t]; !ok {
 					continue
 				}
+				// integer arguments that are the cursor (+ constant): the callee may index with them
+				if callee != nil {
+					if an.cursorParam == nil {
+						an.cursorParam = map[*types.Func]map[int]int{}
+					}
+					if an.cursorParam[t] == nil {
+						an.cursorParam[t] = map[int]int{}
+					}
+					for ai, a := range c.Args {
+						bt, ok := an.info.TypeOf(a).Underlying().(*types.Basic)
+						if !ok || bt.Info()&types.IsInteger == 0 {
+							continue
+						}
+						b, off := an.decomp(a)
+						val := notCursor
+						if strings.HasSuffix(b, ".tokenIndex") {
+							if _, has := st.f[tiPairkey(strings.TrimSuffix(b, ".tokenIndex")+".tokens", b)]; has {
+								val = off
+							}
+						}
+						if old, seen := an.cursorParam[t][ai]; !seen {
+							an.cursorParam[t][ai] = val
+							an.changedEntry = true
+						} else if old != val && old != notCursor {
+							an.cursorParam[t][ai] = notCursor
+							an.changedEntry = true
+						}
+					}
+				}
 				// canonicalize: take best tfact among parser cursors
 				cs := an.canon(st)
 				old := an.entry[t]
@@ -523,13 +559,15 @@ func (an *analyzer) effects(st *tstate, n ast.Node) {
 		pres := callee != nil && an.preserve[callee]
 		mono := callee != nil && an.mono[callee]
 		leq := callee != nil && an.leq[callee]
+		weak := callee != nil && an.weak[callee]
 		if callee == nil {
 			// dynamic call of a block handler: all handlers must agree
-			pres, mono, leq = true, true, true
+			pres, mono, leq, weak = true, true, true, true
 			for h := range an.handlers {
 				pres = pres && an.preserve[h]
 				mono = mono && an.mono[h]
 				leq = leq && an.leq[h]
+				weak = weak && an.weak[h]
 			}
 		}
 		for key, f := range st.f {
@@ -540,6 +578,8 @@ func (an *analyzer) effects(st *tstate, n ast.Node) {
 				}
 				if pres && f.ub >= 0 {
 					st.f[key] = tfact{0, lb}
+				} else if weak && f.ub >= 0 {
+					st.f[key] = tfact{-1, lb} // at most the one guaranteed token was consumed
 				} else if leq && f.ub >= -1 {
 					st.f[key] = tfact{-1, lb} // idx <= len survives the call
 				} else {
@@ -703,6 +743,29 @@ func (an *analyzer) analyze(fn *types.Func, decl *ast.FuncDecl, entry tfact, doR
 	for _, pn := range pnames {
 		init.f[tiPairkey(pn+".tokens", pn+".tokenIndex")] = entry
 	}
+	// integer parameters that are the caller's cursor + c at every call site start with the
+	// cursor's facts shifted by c
+	if cp := an.cursorParam[fn]; cp != nil {
+		pi := 0
+		for _, f := range decl.Type.Params.List {
+			for _, n := range f.Names {
+				if off, ok := cp[pi]; ok && off != notCursor {
+					nf := entry
+					if nf.ub > NEG {
+						nf.ub -= off
+					}
+					nf.lb += off
+					for _, pn := range pnames {
+						init.f[tiPairkey(pn+".tokens", n.Name)] = nf
+					}
+				}
+				pi++
+			}
+			if len(f.Names) == 0 {
+				pi++
+			}
+		}
+	}
 	in := make([]*tstate, len(g.Blocks))
 	in[0] = init
 	work := []int32{0}
@@ -808,7 +871,7 @@ func (an *analyzer) analyze(fn *types.Func, decl *ast.FuncDecl, entry tfact, doR
 }
 
 func checkTokenIndex(w *World, r *Report) {
-	an := &analyzer{w: w, info: w.Info, funcs: map[*types.Func]*ast.FuncDecl{}, preserve: map[*types.Func]bool{}, mono: map[*types.Func]bool{}, leq: map[*types.Func]bool{},
+	an := &analyzer{w: w, info: w.Info, funcs: map[*types.Func]*ast.FuncDecl{}, preserve: map[*types.Func]bool{}, mono: map[*types.Func]bool{}, leq: map[*types.Func]bool{}, weak: map[*types.Func]bool{},
 		entry: map[*types.Func]*tstate{}, handlers: map[*types.Func]bool{}, parents: w.parents, report: map[string]string{}, sites: map[string]bool{},
 		nonEOFPred: map[*types.Func]bool{}}
 	an.tokenT = w.named("Token")
@@ -883,6 +946,7 @@ func checkTokenIndex(w *World, r *Report) {
 		an.preserve[fn] = true
 		an.mono[fn] = true
 		an.leq[fn] = true
+		an.weak[fn] = true
 		// block handlers: method values stored into a map whose element type is the handler type
 		ast.Inspect(fd, func(n ast.Node) bool {
 			kv, ok := n.(*ast.KeyValueExpr)
@@ -921,6 +985,15 @@ func checkTokenIndex(w *World, r *Report) {
 					changed = true
 				}
 			}
+			if an.weak[fn] {
+				an.exitNeed = -1
+				okw := an.analyze(fn, d, tfact{0, 0}, false)
+				an.exitNeed = 0
+				if !okw {
+					an.weak[fn] = false
+					changed = true
+				}
+			}
 			if an.leq[fn] {
 				an.exitNeed = -1
 				okl := an.analyze(fn, d, tfact{-1, 0}, false)
@@ -941,20 +1014,68 @@ func checkTokenIndex(w *World, r *Report) {
 			}
 		}
 	}
-	// 2. entry facts: meet over call sites (handlers: facts at the dynamic call site)
-	for round := 0; round < 12; round++ {
+	// 2. entry facts: meet over call sites (handlers: facts at the dynamic call site).  Greatest
+	// fixed point: every function starts from the optimistic fact, contributions of call sites can
+	// only lower it, and the iteration runs until nothing changes — the result does not depend on
+	// the order in which functions are visited.  Functions without any call site in the package
+	// (Parse, exported entry points) start from nothing.
+	top := tfact{8, 8}
+	for fn := range an.funcs {
+		an.entry[fn] = &tstate{f: map[string]tfact{"P": top}, a: map[types.Object]talias{}}
+	}
+	// roots: functions no parser function calls (statically or as a block handler)
+	called := map[*types.Func]bool{}
+	for h := range an.handlers {
+		called[h] = true
+	}
+	for _, d := range an.funcs {
+		ast.Inspect(d.Body, func(n ast.Node) bool {
+			if c, ok := n.(*ast.CallExpr); ok {
+				if f := an.calleeOf(c); f != nil {
+					called[f] = true
+				}
+			}
+			return true
+		})
+	}
+	converged := false
+	for round := 0; round < 60; round++ {
 		an.changedEntry = false
 		an.collectEntry = true
 		for fn, d := range an.funcs {
-			e := bottomFact()
-			if s := an.entry[fn]; s != nil {
-				e = s.f["P"]
+			e := an.entry[fn].f["P"]
+			if e == top {
+				if called[fn] {
+					continue // not yet reached from an analysed call site: contributes nothing
+				}
+				e = bottomFact()
 			}
 			an.report = map[string]string{}
 			an.analyze(fn, d, e, true)
 		}
 		if !an.changedEntry {
+			converged = true
 			break
+		}
+	}
+	if !converged {
+		cannotDecide("R05.1: entry facts of the parser functions did not converge")
+	}
+	for fn := range an.funcs {
+		if an.entry[fn].f["P"] == top {
+			an.entry[fn] = nil
+		}
+	}
+	if os.Getenv("TOKDBG") != "" {
+		for fn := range an.funcs {
+			fmt.Println("SUMMARY", fn.Name(), "preserve", an.preserve[fn], "leq", an.leq[fn], "weak", an.weak[fn], "mono", an.mono[fn])
+		}
+		for fn := range an.funcs {
+			if e := an.entry[fn]; e != nil {
+				fmt.Println("ENTRY", fn.Name(), e.f["P"], an.cursorParam[fn])
+			} else {
+				fmt.Println("ENTRY", fn.Name(), "none", an.cursorParam[fn])
+			}
 		}
 	}
 	// 3. final pass with reporting
